@@ -185,7 +185,7 @@ struct HMt : Harness {
     if (kern == K_MDC || kern == K_MAXDIS || kern == K_MAXDISF) other = (int)wr.range(1, rows > 1 ? rows : 1);  // selection size
     if (p.get("mode") == "grid" && (kern == K_MDC || kern == K_MAXDIS || kern == K_MAXDISF) && other > 4) other = 1 + other % 4;  // the slicing logic under test does not depend on the selection size
     p.seti("other", other);
-    if (p.get("mode") == "value" && kern >= K_COND_E) { if (wr.chance(0.3)) p.setd("unit_exp", wr.uniform(-6.0, 4.0)); if (wr.chance(0.2)) p.seti("near_dup", 1); }   // condensed distances, k-means, selections
+    if (p.get("mode") == "value" && kern >= K_COND_E) { if (wr.chance(0.3)) p.setd("unit_exp", wr.uniform(-6.0, 4.0)); if (wr.chance(0.2)) p.seti("near_dup", 1); if (wr.chance(0.15)) p.seti("far_off", 1); }   // condensed distances, k-means, selections
     p.setu("data.seed", wr.next() >> 4);
     p.seti("machine.nproc", threads);  // detected count == requested count: one knob for all kernels
     return p;
@@ -212,6 +212,11 @@ struct HMt : Harness {
     if (c.kern == K_MTVM) { c.v.resize(c.rows); for (double &x : c.v) x = dr.uniform(-10, 10); }
     if (selection) {  // general position: distinct well separated points, positive coordinates for cosine
       for (auto &r : c.A) for (double &x : r) x = dr.uniform(0.5, 100.0);
+    }
+    if (p.geti("far_off", 0) && c.kern != K_COND_C && c.kern != K_MDC && c.kern != K_MAXDIS && c.kern != K_MAXDISF) {  // the cloud far from the origin (distances are translation invariant; not for cosine-based kernels)
+      Prng fr(p.getu("data.seed") ^ 0x3355ccULL, PURPOSE_WORKLOAD); double far = pow(10.0, fr.uniform(4.0, 9.0));
+      for (int j = 0; j < c.cols; j++) { double off = (fr.chance(0.5) ? 1 : -1) * far * fr.uniform(0.3, 1.0); for (auto &r : c.A) r[j] += off; }
+      o.counters["probe.far_from_origin"]++;
     }
     if (p.has("unit_exp") || p.geti("near_dup", 0)) {   // value mode: data in another unit, some rows nearly (not exactly) duplicated
       Prng vr(p.getu("data.seed") ^ 0x77aa55ULL, PURPOSE_WORKLOAD);
